@@ -67,6 +67,7 @@ def main(tool, argv):
         t, _, n = fail.partition(":")
         if t == tool and int(n or 1) == nth:
             rec["injected_failure"] = True
+            rec["rc"] = 1
             log(rec)
             return 1
     try:
